@@ -871,7 +871,9 @@ int main(int argc, char** argv) {
               for (int i = 0; i < 2; ++i) cc.codes[i] = seqs[d[2]][i];
               std::string ds = cc.desc();
               runStatic(c, cc, ds, QFULL, QFULL, true);
-              if ((d[3] == 0 && !asanQuick) || thorough)
+              // n = 2 has a single tree shape, so quick runs the maps for three code sequences only (thorough: all)
+              bool seqSel = (cc.codes[0] == 0 && cc.codes[1] <= 1) || cc.codes[0] == 0x3FFFFFFFu;
+              if ((d[3] == 0 && !asanQuick && seqSel) || thorough)
                 for (auto& g : XFS) runXform(c, cc, ds, g, QFULL, true);
               if (idx % 9973 == 0) c.sample(ds);
             },
